@@ -13,6 +13,7 @@ ATTACH = {
     "src/bit_machine/frame.rs": "frame.rs",
     "src/bit_encoding/bitwriter.rs": "bitwriter.rs",
     "src/bit_encoding/encode.rs": "encode.rs",
+    "src/value.rs": "value.rs",
 }
 
 
